@@ -70,7 +70,7 @@ TRANSPORTS = {
         variants=FD_VARIANTS,    # every schedule on pipe / pty / socket descriptor / FIFO / TCP x select / poll x bytes / unicode
         variants_for=fd_variants_for,
         unicode=lambda k: bool(fd_variant(k % FD_VARIANTS)['encoding']),
-        cap=lambda q: 2000 if q else 60000,
+        cap=lambda q: 2000 if q else 8000,
     ),
     'socket': dict(
         module='MCSockRead',
@@ -82,7 +82,7 @@ TRANSPORTS = {
         world=None,     # needs the user's timeout of the initial state: see make_world
         variants=2,     # bytes / unicode (recv() results that end inside a character)
         unicode=lambda k: bool(k % 2),
-        cap=lambda q: 3000 if q else 60000,
+        cap=lambda q: 3000 if q else 30000,
     ),
     'popen': dict(
         module='PopenRead',
@@ -562,6 +562,51 @@ def volume_sweep(ctx):
                     ctx.fail('C06:volume-output-not-delivered-exactly', {'transport': tr, 'size': n, 'maxread': mr},
                              detail={'got_len': len(got), 'want_len': len(want), 'first_difference_at': first, 'got_head': repr(got[:60])},
                              signature={'transport': tr})
+    # the same in unicode mode: text of 1-, 2- and 3-byte characters, read sizes that end inside characters
+    utext = lambda n: ''.join(('a', '\u00e9', '\u20ac', 'z', '\u00fc')[(i * 3 + i // 7) % 5] for i in range(n))
+    uprog = ("import sys,os; n=int(sys.argv[1]); t=''.join(('a', chr(0xe9), chr(0x20ac), 'z', chr(0xfc))[(i*3 + i//7) % 5] for i in range(n)); "
+             "sys.stdout.buffer.write(t.encode('utf-8')); sys.stdout.flush()")
+    for n in ([0, 1, 1500] if ctx.quick() else [0, 1, 2, 1500, 4096, 70001]):
+        want = utext(n)
+        for mr in (1, 2, 7, 2000):
+            if mr <= 2 and n > 5000:
+                continue
+            for tr in ('pty', 'popen', 'pipe', 'socket'):
+                runs += 1
+                try:
+                    if tr == 'pty':
+                        c = pexpect.spawn(sys.executable, ['-c', uprog, str(n)], maxread=mr, timeout=60, echo=False, encoding='utf-8')
+                        c.expect(pexpect.EOF)
+                        got = c.before
+                        c.close()
+                    elif tr == 'popen':
+                        c = popen_spawn.PopenSpawn([sys.executable, '-c', uprog, str(n)], maxread=mr, timeout=60, encoding='utf-8')
+                        c.expect(pexpect.EOF)
+                        got = c.before
+                        c.wait()
+                    elif tr == 'pipe':
+                        p = subprocess.Popen([sys.executable, '-c', uprog, str(n)], stdout=subprocess.PIPE)
+                        c = fdpexpect.fdspawn(p.stdout.fileno(), maxread=mr, timeout=60, encoding='utf-8')
+                        c.expect(pexpect.EOF)
+                        got = c.before
+                        p.wait()
+                        p.stdout.close()
+                    else:
+                        a, b = socket.socketpair()
+                        t = threading.Thread(target=lambda: (b.sendall(want.encode('utf-8')), b.close()))
+                        t.start()
+                        c = socket_pexpect.SocketSpawn(a, maxread=mr, timeout=60, encoding='utf-8')
+                        c.expect(pexpect.EOF)
+                        got = c.before
+                        t.join()
+                        a.close()
+                except Exception as e:
+                    got = '<%s: %s>' % (type(e).__name__, str(e)[:80])
+                if got != want:
+                    first = next((i for i in range(min(len(got), len(want))) if got[i] != want[i]), min(len(got), len(want)))
+                    ctx.fail('C06:volume-output-not-delivered-exactly', {'transport': tr, 'size': n, 'maxread': mr, 'unicode': True},
+                             detail={'got_len': len(got), 'want_len': len(want), 'first_difference_at': first, 'got_head': repr(got[:60])},
+                             signature={'transport': tr})
     return runs, max(sizes)
 
 
@@ -578,7 +623,8 @@ def run(ctx):
     vruns, vmax = (0, 0)
     if ctx.pid == 'C06':
         vruns, vmax = volume_sweep(ctx)
-        ctx.note('volume sweep: %d runs (sizes up to %d bytes x maxread in {1, 7, 2000, 65536} x pty / popen / pipe / socket), expect(EOF).before == what was written' % (vruns, vmax))
+        ctx.note('volume sweep: %d runs (sizes up to %d bytes x maxread in {1, 7, 2000, 65536} x pty / popen / pipe / socket; the same in unicode mode with '
+                 '1- to 3-byte characters and maxread in {1, 2, 7, 2000}), expect(EOF).before == what was written' % (vruns, vmax))
     ctx.failures = [f for f in ctx.failures if f.clause.startswith(ctx.pid + ':')]
     status, nviol, nknown = common.conclude(ctx)
     tot = lambda k: sum(r[2][k] for r in results.values())
